@@ -196,12 +196,35 @@ def step_limit_loud(ctx):
             body = getattr(par, "body", [])
             after = body[body.index(lp) + 1:] if lp in body else []
             loud = False
+            unreachable = None
+            NEG = {ast.LtE: ">", ast.Lt: ">=", ast.GtE: "<", ast.Gt: "<=", ast.NotEq: "==", ast.Eq: "!="}
+            SYM = {ast.LtE: "<=", ast.Lt: "<", ast.GtE: ">=", ast.Gt: ">", ast.NotEq: "!=", ast.Eq: "=="}
+            FLIP = {"<=": ">=", "<": ">", ">=": "<=", ">": "<", "!=": "!=", "==": "=="}
+            IMPLIES = {">": {">", ">=", "!="}, ">=": {">="}, "<": {"<", "<=", "!="}, "<=": {"<="}, "==": {"==", ">=", "<="}, "!=": {"!="}}
+            exit_op = NEG.get(type(lim.ops[0])) if len(lim.ops) == 1 else None     # counter <exit_op> bound holds when the limit ends the loop
+            others = {dotted(x) for c in ast.walk(lp.test) if isinstance(c, ast.Compare) and c is not lim for x in ast.walk(c) if isinstance(x, ast.Attribute) and dotted(x)}
             for st in after:
-                if isinstance(st, ast.If) and counter in norm_src(st.test) and bound in norm_src(st.test):
-                    if any(isinstance(w, ast.Raise) or (isinstance(w, ast.Call) and (dotted(w.func) or "").split(".")[-1] == "warn") for w in ast.walk(st)):
-                        loud = True
+                if isinstance(st, ast.If) and any(isinstance(w, ast.Raise) or (isinstance(w, ast.Call) and (dotted(w.func) or "").split(".")[-1] == "warn") for w in ast.walk(st)):
+                    t = st.test
+                    if isinstance(t, ast.Compare) and len(t.ops) == 1 and {norm_src(t.left), norm_src(t.comparators[0])} == {counter, bound}:
+                        g = SYM.get(type(t.ops[0]))
+                        if norm_src(t.left) != counter and g:
+                            g = FLIP[g]
+                        if exit_op is None or g in IMPLIES.get(exit_op, ()):
+                            loud = True
+                        else:
+                            unreachable = (st, g)
+                    elif counter in norm_src(t) and bound in norm_src(t):
+                        loud = True     # compound test on the counter: not judged further
+                    elif any(o in norm_src(t) for o in others):
+                        loud = True     # "still inside the requested range" - the complementary way to notice the cut
                 if isinstance(st, ast.Assert) and counter in norm_src(st.test):
                     loud = True
+            if unreachable is not None and not loud:
+                st, g = unreachable
+                rep.bad("C23.R8", C, st.test, f"the loop ends through its step limit when `{counter} {exit_op} {bound}`, but the report after the loop is guarded by `{norm_src(st.test)}`, which "
+                        f"that does not imply (the loop condition `{norm_src(lim)}` and the guard disagree by one): a run cut off by the limit returns silently", f"{ST}:{st.lineno}")
+                continue
             if loud:
                 rep.ok("C23.R8", C, f"loop bounded by `{norm_src(lim)}`: reaching the limit is reported after the loop")
             else:
@@ -212,25 +235,64 @@ def step_limit_loud(ctx):
 
 
 def riks_first_point(ctx):
+    """The first returned point of Riks must be a point the solver SOLVED, with state and load parameter taken from one vector:
+     (a) Riks.__init__ leaves in self.xk the solution `sol.x` of an fsolve whose residual is the static residual at the very load value that is
+         concatenated to it (the raw initial state (q0, la_c0, ...) is an equilibrium only if the user happens to start in one);
+     (b) Riks.solve takes the first rows of ALL result lists from self.xk (components and load of the same vector)."""
     rep = ctx.rep
     fn = ctx.repo.get(ST, "Riks.solve")
     init = ctx.repo.get(ST, "Riks.__init__")
     C = f"{ST}:Riks.solve"
-    # the vector of the initial converged point: self.xk = np.concatenate((self.q0, ..., <load>))
-    xk = [n for n in ast.walk(init) if isinstance(n, ast.Assign) and norm_src(n.targets[0]) == "self.xk" and isinstance(n.value, ast.Call)
-          and (dotted(n.value.func) or "").endswith("concatenate") and n.value.args and isinstance(n.value.args[0], (ast.Tuple, ast.List))]
-    if len(xk) != 1:
+    Ci = f"{ST}:Riks.__init__"
+    xks = [n for n in ast.walk(init) if isinstance(n, ast.Assign) and norm_src(n.targets[0]) == "self.xk" and isinstance(n.value, ast.Call)
+           and (dotted(n.value.func) or "").endswith("concatenate") and n.value.args and isinstance(n.value.args[0], (ast.Tuple, ast.List))]
+    if not xks:
         raise AnalysisError(f"{ST}:Riks.__init__: `self.xk = np.concatenate((...))` not found")
-    comps = [norm_src(e) for e in xk[0].value.args[0].elts]
-    load0 = xk[0].value.args[0].elts[-1]
-    # load value of that vector: np.array([c]) / [c]
-    lv = load0
-    if isinstance(lv, ast.Call) and lv.args:
-        lv = lv.args[0]
-    if isinstance(lv, (ast.List, ast.Tuple)) and len(lv.elts) == 1:
-        lv = lv.elts[0]
-    want = norm_src(lv)
-    # initial rows of the result lists
+    xk = max(xks, key=lambda n: n.lineno)
+
+    def scalar(e):
+        if isinstance(e, ast.Call) and e.args:
+            e = e.args[0]
+        if isinstance(e, (ast.List, ast.Tuple)) and len(e.elts) == 1:
+            e = e.elts[0]
+        s_ = norm_src(e)
+        return "0" if s_ in ("0", "0.0") else s_
+    elts = xk.value.args[0].elts
+    comps = [norm_src(e) for e in elts]
+    want = scalar(elts[-1])
+    # (a) provenance of the state part
+    state = elts[:-1]
+    solved = None
+    if len(state) == 1 and isinstance(state[0], ast.Attribute) and state[0].attr == "x" and isinstance(state[0].value, ast.Name):
+        var = state[0].value.id
+        defs = [n for n in ast.walk(init) if isinstance(n, ast.Assign) and norm_src(n.targets[0]) == var and n.lineno < xk.lineno
+                and isinstance(n.value, ast.Call) and (dotted(n.value.func) or "").split(".")[-1] == "fsolve"]
+        if defs:
+            call = max(defs, key=lambda n: n.lineno).value
+            f = call.args[0] if call.args else None
+            body = None
+            if isinstance(f, ast.Lambda):
+                body = f.body
+            elif isinstance(f, ast.Name):
+                d = [n for n in ast.walk(init) if isinstance(n, ast.FunctionDef) and n.name == f.id]
+                body = d[0] if d else None
+            loads = set()
+            if body is not None:
+                for w in ast.walk(body):
+                    if isinstance(w, ast.Call) and (dotted(w.func) or "").endswith("concatenate") and w.args and isinstance(w.args[0], (ast.Tuple, ast.List)) and len(w.args[0].elts) == 2:
+                        loads.add(scalar(w.args[0].elts[1]))
+                uses_R = any(isinstance(w, ast.Call) and norm_src(w.func) == "self.R" for w in ast.walk(body))
+            else:
+                uses_R = False
+            solved = (loads, uses_R)
+    if solved is None:
+        rep.bad("C23.R7", Ci, xk, f"the first point of the path, self.xk = ({', '.join(comps)}), is the raw initial state: it is returned as an equilibrium of load {want} "
+                "without ever having been solved, so it violates equilibrium by the whole residual of the initial state at that load", f"{ST}:{xk.lineno}")
+    elif not solved[1] or solved[0] != {want}:
+        rep.bad("C23.R7", Ci, xk, f"self.xk pairs the solution of a solve at load {sorted(solved[0]) or '?'} with the load parameter {want}", f"{ST}:{xk.lineno}")
+    else:
+        rep.ok("C23.R7", Ci, f"self.xk = (solution of the static residual at load {want}; {want})")
+    # (b) first rows of the result lists
     first = {}
     for n in fn.body:
         if isinstance(n, ast.Assign) and isinstance(n.value, ast.List) and len(n.value.elts) == 1 and isinstance(n.targets[0], ast.Name):
@@ -240,17 +302,30 @@ def riks_first_point(ctx):
         raise AnalysisError(f"{C}: return Solution(...) not found")
     tkw = next((k.value for k in ret[0].value.keywords if k.arg == "t"), None)
     tname = next((w.id for w in ast.walk(tkw) if isinstance(w, ast.Name) and w.id in first), None) if tkw is not None else None
-    state_ok = all(norm_src(first[k]) in comps for k in first if k != tname)
-    if tname is None or not state_ok:
-        rep.ok("C23.R7", C, "initial rows are not the components of self.xk in a form the analysis reads (no verdict)", verdict="unknown", trivial=True)
+    # components of self.xk: a tuple assignment from np.array_split(self.xk[.copy()], self.split_unknowns)
+    split = [n for n in fn.body if isinstance(n, ast.Assign) and isinstance(n.targets[0], ast.Tuple) and isinstance(n.value, ast.Call)
+             and (dotted(n.value.func) or "").endswith("array_split") and n.value.args and norm_src(n.value.args[0]) in ("self.xk", "self.xk.copy()")]
+    if tname is None:
+        rep.ok("C23.R7", C, "initial rows are not in a form the analysis reads (no verdict)", verdict="unknown", trivial=True)
         return
     got = norm_src(first[tname])
-    same = got == want or (got in ("0", "0.0") and want in ("0", "0.0")) or got in ("self.xk[-1]", "float(self.xk[-1])")
-    if same:
-        rep.ok("C23.R7", C, f"first point = components of self.xk = ({', '.join(comps[:-1])}; load {want})")
+    if split:
+        names = [e.id for e in split[0].targets[0].elts if isinstance(e, ast.Name)]
+        others_ok = all(norm_src(first[k]) in names[:-1] for k in first if k != tname)
+        load_ok = got in (f"{names[-1]}[0]", f"float({names[-1]}[0])", f"{names[-1]}.item()", "self.xk[-1]")
     else:
-        rep.bad("C23.R7", C, first[tname], f"the first returned point pairs the state ({', '.join(comps[:-1])}) of self.xk, whose load parameter is {want}, with the load parameter "
-                f"`{got}`: that state is the equilibrium of load {want}, so the returned point violates equilibrium by the whole load `{got}`", f"{ST}:{first[tname].lineno}")
+        names = comps
+        others_ok = all(norm_src(first[k]) in comps for k in first if k != tname)
+        load_ok = got in ("self.xk[-1]", "float(self.xk[-1])") or scalar(first[tname]) == want
+    if others_ok and load_ok:
+        rep.ok("C23.R7", C, f"first rows of all result lists are the components and the load parameter of self.xk")
+    elif not others_ok:
+        bad = next(k for k in first if k != tname and norm_src(first[k]) not in names)
+        rep.bad("C23.R7", C, first[bad], f"the first row of `{bad}` is `{norm_src(first[bad])}`, not a component of the solved first point self.xk: the first returned point is not "
+                "the equilibrium that was computed for it", f"{ST}:{first[bad].lineno}")
+    else:
+        rep.bad("C23.R7", C, first[tname], f"the first returned point pairs the state of self.xk, whose load parameter is {want}, with the load parameter "
+                f"`{got}`: the returned point violates equilibrium by the whole load difference", f"{ST}:{first[tname].lineno}")
 
 
 def newton_rows(ctx):
@@ -387,17 +462,29 @@ MUTANTS += [
 ]
 MUTANTS += [
     dict(id="c23-r7-orig", canary=True, what="Riks: first returned point labelled with la_arc0 (original defect)", file=ST,
-         old="        la_arc = [self.xk[-1]]  # the initial state belongs to the load level of xk\n", new="        la_arc = [self.la_arc0]\n", expect="C23.R7"),
+         old="        la_arc = [la_arc0[0]]\n", new="        la_arc = [self.la_arc0]\n", expect="C23.R7"),
+    dict(id="c23-r7-f48", canary=True, what="Riks returns the raw initial state as first point (original defect F48)", file=ST,
+         edits=[(ST, "        self.xk = np.concatenate((sol.x, [0.0]))\n", "        pass\n"),
+                (ST, "        q = [q0]\n        la_c = [la_c0]\n        la_g = [la_g0]\n        la_N = [la_N0]\n        la_arc = [la_arc0[0]]\n",
+                 "        q = [self.q0]\n        la_c = [self.la_c0]\n        la_g = [self.la_g0]\n        la_N = [self.la_N0]\n        la_arc = [self.xk[-1]]\n")],
+         expect="C23.R7"),
+    dict(id="c23-r7-3", what="Riks: first rows taken from the raw initial state although xk was solved", file=ST,
+         old="        q = [q0]\n", new="        q = [self.q0]\n", expect="C23.R7"),
 ]
 MUTANTS += [
+    dict(id="c23-r8-seed", canary=True, what="[seeded by sub-agent] Riks: loop bound tightened to `<` while the report stays guarded by `>`", file=ST,
+         old="            and load_step <= self.max_load_steps\n", new="            and load_step < self.max_load_steps\n", expect="C23.R8"),
     dict(id="c23-r8-orig", canary=True, what="Riks returns silently when the step limit cuts the run (original defect)", file=ST,
          old="        if load_step > self.max_load_steps:\n            warnings.warn(", new="        if False:\n            warnings.warn(", expect="C23.R8"),
 ]
 NEUTRAL = [
+    dict(id="c23-n-r8", canary=True, what="Riks: loop bound `<` and report guarded by `>=`", file=ST,
+         edits=[(ST, "            and load_step <= self.max_load_steps\n", "            and load_step < self.max_load_steps\n"),
+                (ST, "        if load_step > self.max_load_steps:\n", "        if load_step >= self.max_load_steps:\n")]),
     dict(id="c23-n4", what="Riks raises instead of warning when the step limit cuts the run", file=ST,
          old="        if load_step > self.max_load_steps:\n            warnings.warn(", new="        if load_step > self.max_load_steps:\n            raise RuntimeError(\"maximum number of load steps reached\")\n        if False:\n            warnings.warn("),
     dict(id="c23-n3", what="Riks: first load parameter written as the constant of xk", file=ST,
-         old="        la_arc = [self.xk[-1]]  # the initial state belongs to the load level of xk\n", new="        la_arc = [0.0]\n"),
+         old="        la_arc = [la_arc0[0]]\n", new="        la_arc = [self.xk[-1]]\n"),
     dict(id="c23-n2", what="Newton.solve: range(self.nt) instead of range(0, self.nt)", file=ST,
          old="        pbar = range(0, self.nt)\n", new="        pbar = range(self.nt)\n"),
     dict(id="c23-n1", canary=True, what="Riks stores copies and updates the predictor in place", file=ST,
